@@ -366,7 +366,8 @@ func (l *LinkedList) SetValue(list []byte) {
 		if n == 0 {
 			break
 		}
-		v := list[n : n+int(vLen)]
+		v := make([]byte, vLen)
+		copy(v, list[n:n+int(vLen)])
 		list = list[n+int(vLen):]
 		l.RPush(v)
 	}
